@@ -5,7 +5,7 @@ from common import quiet
 
 PROP = 'C07'
 LEAN_MODULES = ['XyzProofs.Props.C07', 'XyzProofs.Refine.Batch']
-THEOREMS = ['Batch.c07_partition', 'Batch.c07_nonempty', 'Batch.c07_batchsize', 'Batch.c07_num_batches',
+THEOREMS = ['Batch.c07_resow_count', 'Batch.c07_partition', 'Batch.c07_nonempty', 'Batch.c07_batchsize', 'Batch.c07_num_batches',
             'Batch.c07_reported_count', 'Batch.sumSizes_eq',
             'Refine.chooseBatch_refines', 'Refine.sowerCall_refines', 'Refine.sowerExit_refines', 'Refine.sower_refines']
 ANCHORS = ['nbFromBs', 'capNb', 'bsOfNb', 'remOfNb', 'bothOk', 'sowerGetsExtra', 'sowerFlush',
@@ -13,7 +13,7 @@ ANCHORS = ['nbFromBs', 'capNb', 'bsOfNb', 'remOfNb', 'bothOk', 'sowerGetsExtra',
 RULE = ("each case = (N settings as a grid or a case list, batchsize s in 1..N+1 or num_batches k in 1..N+2 or neither, "
         "shuffle off/seed, optional Runner constants/resources): the real Crop is sown, its batch files unpickled and "
         "compared with the Lean Sower model and with the call log of a direct run; quick enumerates all (N, s|k) for "
-        "N<=24, thorough for N<=48; non-trivial = N>=2 and at least 2 batches; distinct by full case description")
+        "N<=24, thorough for N<=48; re-sows of N2 settings into the sown crop (same or reloaded object) for every N<=10 (16) and N2 in the window around the acceptance bounds; non-trivial = N>=2 and at least 2 batches; distinct by full case description")
 EXHAUSTIVE = {'quick': True, 'thorough': True}
 TRUSTED = ["pickle round trip of the batch files; the harness's enumeration of the direct-run order (itertools.product over name-sorted combos) used to index settings"]
 ASSUMPTIONS = ["math.ceil(n / batchsize) is exact ceiling division (n < 2**53)"]
@@ -56,7 +56,23 @@ def cases(ctx):
         mode = rng.choice(['bs', 'nb'])
         val = rng.choice([1, 2, 3, n - 1, n, n + 1, rng.randint(1, n + 2), max(1, n // rng.randint(2, 9))])
         i += 1; out.append(_mk(rng, n, mode, max(1, val), i))
+    # re-sow: a second sow of another number of settings into the sown crop (same object or a reloaded one); the
+    # remembered (batchsize, num_batches, remainder) either still fit -- then every batch file is rewritten -- or the
+    # sow is refused.  N2 runs over the whole window around the acceptance bounds.
+    rmax = 10 if ctx.tier == 'quick' else 16
+    for n in range(1, rmax + 1):
+        for mode, vals in (('bs', range(1, n + 2)), ('nb', range(1, n + 3)), ('none', [None])):
+            for val in vals:
+                bs_eff = val if mode == 'bs' else (max(1, n // max(1, min(val, n))) if mode == 'nb' else 1)
+                for n2 in range(max(1, n - bs_eff - 2), n + 3):
+                    if n2 == n and (i % 4): continue
+                    i += 1
+                    c = _mk(rng, n, mode, val, 1 + 3 * i)         # always a grid
+                    c['farmer'] = False
+                    c['resow'] = {'n2': n2, 'reload': bool(i % 2)}
+                    out.append(c)
     for c in out:
+        ctx.count('resow', 'no' if 'resow' not in c else 'reload' if c['resow']['reload'] else 'same-object')
         ctx.count('mode', 'bs' if 'bs' in c else 'nb' if 'nb' in c else 'none')
         ctx.count('kind', c['kind']); ctx.count('shuffle', bool(c['shuffle'])); ctx.count('farmer', c['farmer'])
     return out
@@ -139,6 +155,25 @@ def run_real(c, ctx):
         except Exception as e:
             # reading the sown files back / re-creating the crop from disk is part of the property: a failure is an observation
             return {'err_reload': type(e).__name__, 'msg': str(e)[:200]}
+        resow = None
+        if 'resow' in c:
+            n2 = c['resow']['n2']
+            crop_r = xyz.Crop(fn=_rec, name='t', parent_dir=d) if c['resow']['reload'] else crop
+            combos2 = {'zz': [1000 + j for j in range(n2)]}
+            try:
+                with quiet():
+                    crop_r.sow_combos(combos2, verbosity=0)
+                files = glob.glob(os.path.join(crop.location, 'batches', 'xyz-batch-*.jbdmp'))
+                ids2 = sorted(int(re.findall(r'xyz-batch-(\d+)\.jbdmp', f)[0]) for f in files)
+                b2 = []
+                for j in ids2:
+                    with open(os.path.join(crop.location, 'batches', f'xyz-batch-{j}.jbdmp'), 'rb') as fh:
+                        b2.append([(kw['zz'] - 1000) if set(kw) == {'zz'} else -1 for kw in pickle.load(fh)])
+                crop4 = xyz.Crop(name='t', parent_dir=d)
+                resow = {'ids': ids2, 'batches': b2, 'reported': [crop_r.batchsize, crop_r.num_batches, crop_r.num_sown_batches],
+                         'reloaded': [crop4.batchsize, crop4.num_batches, crop4.num_sown_batches]}
+            except Exception as e:
+                resow = {'err': type(e).__name__}
         # direct run with a recording function: the kwargs a direct run passes
         log = []
 
@@ -164,7 +199,7 @@ def run_real(c, ctx):
         bidx = [[index.get(common.kwkey(kw), -1) for kw in b] for b in batches]
         return {'ids': ids, 'batches': bidx, 'reported': rep, 'reloaded': rep2, 'reloaded_with_request': rep3,
                 'direct': sorted(map(str, map(common.kwkey, log))),
-                'sown': sorted(str(common.kwkey(kw)) for b in batches for kw in b)}
+                'sown': sorted(str(common.kwkey(kw)) for b in batches for kw in b), 'resow': resow}
     finally:
         common.rm(d)
 
@@ -175,6 +210,8 @@ def model_request(c, obs):
     if 'nb' in c: rq['nb'] = c['nb']
     if c['shuffle']:
         rq['stream'] = common.perm(c['shuffle'], c['n'])
+    if 'resow' in c:
+        rq['n2'] = c['resow']['n2']
     return rq
 
 
@@ -186,6 +223,14 @@ def compare(c, obs, rep):
         return f'batch contents differ: real {obs["batches"][:4]}… model {rep["batches"][:4]}…'
     if obs['reported'][:2] != [rep['batchsize'], rep['num_batches']]:
         return f'reported (batchsize, num_batches) {obs["reported"][:2]} vs model {[rep["batchsize"], rep["num_batches"]]}'
+    if 'resow' in c:
+        ro, rm = obs['resow'], rep.get('resow')
+        if rm is None: return 'model gave no answer for the re-sow'
+        if ('err' in ro) != ('err' in rm):
+            return f're-sow of {c["resow"]["n2"]} settings: real {"refused" if "err" in ro else "accepted"}, model {"refused" if "err" in rm else "accepted"}'
+        if 'err' not in ro:
+            if ro['batches'] != rm['files']:
+                return f're-sow: batch files differ: real {ro["batches"][:4]}… model {rm["files"][:4]}…'
     return None
 
 
@@ -219,6 +264,17 @@ def oracle(c, obs):
         return f'a crop reloaded with the original request reports {obs["reloaded_with_request"][:3]} vs {obs["reported"]}'
     if obs['reloaded_with_request'][3] != list(range(1, B + 1)):
         return f'a crop reloaded with the original request lists missing batches {obs["reloaded_with_request"][3]}, sown are 1..{B}'
+    ro = obs.get('resow')
+    if ro is not None and 'err' not in ro:         # a refused re-sow is allowed; an accepted one must partition the new settings
+        n2 = c['resow']['n2']
+        B2 = len(ro['ids'])
+        if ro['ids'] != list(range(1, B2 + 1)): return f're-sow: batch ids not 1..B: {ro["ids"]}'
+        flat2 = [j for b in ro['batches'] for j in b]
+        if -1 in flat2: return f're-sow of {n2} settings accepted, but a batch file still holds settings of the earlier sow: {ro["batches"]}'
+        if sorted(flat2) != list(range(n2)): return f're-sow: the {n2} new settings are not partitioned by the batch files: {ro["batches"]}'
+        if any(len(b) == 0 for b in ro['batches']): return 're-sow: empty batch'
+        if ro['reported'][1] != B2 or ro['reported'][2] != B2: return f're-sow: crop reports {ro["reported"]} but {B2} files exist'
+        if ro['reloaded'] != ro['reported']: return f're-sow: reloaded crop reports {ro["reloaded"]} vs {ro["reported"]}'
     return None
 
 
